@@ -22,7 +22,7 @@ CFG = dict(
         "bvh_hit_eq_list", "bvh_hit_eq_list_aabb", "hitlist_nearest", "bvh_hit_eq_hitlist_any_order",
         "bvh_build_covers", "bvh_built_hit_eq_hitlist", "octree_hit_eq_hitlist",
         # round 2 (Props/C16Prims.lean): the real primitives are hit only inside their boxes; BVH = HitList without primitive hypothesis
-        "sphere_hit_on_sphere", "sphere_hit_in_box", "rect_hit_in_box", "rayIntersectsTri_in_box", "tri_hit_in_box",
+        "sphere_hit_on_sphere", "sphere_hit_in_box", "between_linear", "rect_hit_in_box", "rayIntersectsTri_in_box", "tri_hit_in_box",
         "prim_hit_in_box", "prim_hit_slab", "prim_first_hit", "bvh_hit_eq_list_strict", "prims_bvh_hit_eq_hitlist",
         "prims_bvh_built_hit_eq_hitlist", "slab_rejects_point_range", "bvh_differs_on_point_range",
         # round 2 (Props/C16Mesh.lean): rendering.Mesh.Hit / Hit2 through the octree = the exhaustive triangle loop
